@@ -706,17 +706,18 @@ pub fn partial_liquidation_reply(
     // long: unrealizedPnl = positionNotional - openNotional => openNotional = positionNotional - unrealizedPnl
     // short: unrealizedPnl = openNotional - positionNotional => openNotional = positionNotional + unrealizedPnl
     // positionNotional = oldPositionNotional - exchangedQuoteAssetAmount
-    position.notional = match position.size {
-        Integer {
-            negative: false, ..
-        } => position
+    // (the side is the position's own: a short reduced to exactly zero by a 100% ratio is still
+    // settled with the short formula)
+    position.notional = if position.direction == Direction::AddToAmm {
+        position
             .notional
             .checked_sub(swap.open_notional)?
-            .checked_sub(realized_pnl.value)?,
-        Integer { negative: true, .. } => realized_pnl
+            .checked_sub(realized_pnl.value)?
+    } else {
+        realized_pnl
             .value
             .checked_add(position.notional)?
-            .checked_sub(swap.open_notional)?,
+            .checked_sub(swap.open_notional)?
     };
 
     let mut messages: Vec<SubMsg> = vec![];
